@@ -1,7 +1,8 @@
 /* C09 / C10 / C19 (socket part) harness: the real psocket.c of the working tree (textually included so
  * that `struct PSocket_` is visible), every native call replaced at link time (-Wl,--wrap=…) by a
  * wrapper that pops its result from the op file's script and logs its arguments.
- * Protocol: see lean/PV/Driver/Socket.lean (same ops, same answer lines). */
+ * Protocol: see lean/PV/Driver/Socket.lean (same ops, same answer lines).
+ * p_socket_address_to_native is wrapped too: it answers FALSE for an address argument written `bad:<hex>`. */
 #define _GNU_SOURCE
 #include "psocket.c"
 
@@ -276,6 +277,14 @@ PSocketAddress *__wrap_p_socket_address_new_from_native (pconstpointer native, p
 	return __real_p_socket_address_new_from_native (native, len);
 }
 
+/* an address argument written `bad:<hex>` is an object p_socket_address_to_native rejects (during that one call) */
+static int bad_addr, bad_next;
+pboolean __real_p_socket_address_to_native (const PSocketAddress *, ppointer, psize);
+pboolean __wrap_p_socket_address_to_native (const PSocketAddress *a, ppointer dest, psize len) {
+	if (in_call && bad_addr) return FALSE;
+	return __real_p_socket_address_to_native (a, dest, len);
+}
+
 /* ------------------------------------------------------------------ op files */
 #define NSLOT 16
 static PSocket *slots[NSLOT];
@@ -323,11 +332,12 @@ typedef struct {
 static void begin_call (void) {
 	isslen = 0; if (isslog) isslog[0] = 0;
 	n_send = n_send_nosig = 0; cur_written = 0; have_na = 0; have_pend = have_sw = 0;
+	bad_addr = bad_next; bad_next = 0;
 	errno = 0; in_call = 1;
 }
 
 static void answer (CallOut *o) {
-	in_call = 0;
+	in_call = 0; bad_addr = 0;
 	fprintf (out, "r=%lld e=", o->ret);
 	if (o->err) {
 		fprintf (out, "%d/%d/", p_error_get_code (o->err), p_error_get_native_code (o->err));
@@ -356,6 +366,7 @@ static void answer (CallOut *o) {
 static PSocketAddress *mk_addr (const char *s, int *ok) {
 	*ok = 1;
 	if (!strcmp (s, "null")) return NULL;
+	if (!strncmp (s, "bad:", 4)) { s += 4; bad_next = 1; }
 	long n; unsigned char *b = parse_hex (s, &n);
 	if (n < 0) { *ok = 0; return NULL; }
 	PSocketAddress *a = __real_p_socket_address_new_from_native (b, (psize) n);
@@ -410,8 +421,9 @@ int main (void) {
 			long long a1, a2, a3; unsigned long long u1;
 			char *buf = NULL; PSocketAddress *addr = NULL; long hn;
 			cur_buf = NULL; cur_cap = 0;
+			bad_next = 0;
 			if (setjmp (stop_jmp)) {
-				in_call = 0; dead = 1; clear_script ();
+				in_call = 0; bad_addr = 0; dead = 1; clear_script ();
 				fprintf (out, "%s\n", stop_msg); goto next;
 			}
 			if (!strcmp (tok[0], "initonce") && nt == 1) { begin_call (); p_socket_init_once (); o.ret = 1; answer (&o); }
@@ -488,7 +500,7 @@ int main (void) {
 				begin_call (); o.ret = p_socket_close (slots[s], &o.err); o.slot = s; answer (&o);
 			}
 			else if (!strcmp (tok[0], "shutdown") && nt == 4) {
-				if (!parse_slot (tok[1], &s) || !parse_bool (tok[2], &b1) || !parse_bool (tok[3], &b2)) BAD;
+				if (!parse_slot (tok[1], &s) || !parse_pbool (tok[2], &b1) || !parse_pbool (tok[3], &b2)) BAD;
 				begin_call (); o.ret = p_socket_shutdown (slots[s], b1, b2, &o.err); o.slot = s; answer (&o);
 			}
 			else if (!strcmp (tok[0], "setbuf") && nt == 4) {
